@@ -326,9 +326,9 @@ split_glued = Fn(T, 'split_glued_input_redirections', ret='r',
                   Rw('rest.len() > op.len()', 'vx_longer(rest, op)', rule='R12', why='byte lengths')],
     let_types={'result': 'Tokens'},
     clone_shims={'sep': 'vx_clone_string', 'text': 'vx_clone_string'},
-    ensures=[('C04+C01.split_glued.words_without_an_unquoted_lt_are_untouched',
+    ensures=[('C04+C01+C13.split_glued.words_without_an_unquoted_lt_are_untouched',
               '(forall|i: int| 0 <= i < tokens@.len() ==> !lt_like(#[trigger] tokens@[i])) ==> tsv(r@) == tsv(tokens@)')],
-    loops={0: Loop(invariant=[('C04+C01.inv.split_glued.prefix',
+    loops={0: Loop(invariant=[('C04+C01+C13.inv.split_glued.prefix',
                                '(forall|i: int| 0 <= i < tokens@.len() ==> !lt_like(#[trigger] tokens@[i])) ==> tsv(result@) == tsv(tokens@.take(__I as int))')])},
     hints={'loop-0-body-entry': 'lemma_take_push(tokens@, __I as int); '
                                 'assert forall|x: Token| #[trigger] tsv(result@.push(x)) == tsv(result@).push(tv(x)) by { assert(tsv(result@.push(x)) =~= tsv(result@).push(tv(x))); }',
